@@ -242,6 +242,9 @@ impl ProbeSpace {
                 "/A/x-b".into(),
                 "/a/x-b".into(),
                 "/A/y-b".into(),
+                // a tail shorter than the number of escaped characters of the shared literal prefix "/x\-y\-z/"
+                "/x-y-z/q".into(),
+                "/x-y-z/q/e".into(),
             ],
         }
     }
@@ -780,6 +783,32 @@ pub fn deviations() -> Vec<(usize, String, Box<dyn Fn(&mut RuleSpec) + Send + Sy
             r.markers.push(("m".into(), "[a-z]+".into()));
         }),
     );
+    // a counted repetition over Unicode classes: the compiled program of this expression is megabytes large
+    add(
+        6,
+        "path=/a/@m counted unicode class {1,60}",
+        Box::new(|r| {
+            r.path = "/a/@m".into();
+            r.markers.push(("m".into(), r"[\p{L}\p{N}\-]{1,60}".into()));
+        }),
+    );
+    // two marker rules sharing a literal prefix whose regex source is longer than its text (escaped '-')
+    add(
+        6,
+        "path=/x-y-z/@m (escaped literal prefix shared with /x-y-z/@m/e)",
+        Box::new(|r| {
+            r.path = "/x-y-z/@m".into();
+            r.markers.push(("m".into(), "[a-z]+".into()));
+        }),
+    );
+    add(
+        6,
+        "path=/x-y-z/@m/e (escaped literal prefix shared with /x-y-z/@m)",
+        Box::new(|r| {
+            r.path = "/x-y-z/@m/e".into();
+            r.markers.push(("m".into(), "[a-z]+".into()));
+        }),
+    );
     add(
         6,
         "path=/A/x-@m (plain upper-case prefix shared with /A/y-@m)",
@@ -886,7 +915,8 @@ pub fn star_and_pairs_universe(pairs: u8) -> Vec<RuleSpec> {
                 "log_override": if i % 5 == 0 { json!(false) } else { Value::Null },
                 "stop": if i % 11 == 7 { json!(true) } else { Value::Null },
                 // every other stop rule is sampled out (sampling 0): its stop flag must then be ignored
-                "source": {"sampling": if i % 22 == 7 { json!(0) } else if i % 17 == 3 { json!(100) } else { Value::Null }},
+                // ... and every other reset rule too (i % 26 == 5): a sampled-out rule resets nothing
+                "source": {"sampling": if i % 22 == 7 || i % 26 == 5 { json!(0) } else if i % 17 == 3 { json!(100) } else { Value::Null }},
                 "reset": if i % 13 == 5 { json!(true) } else { Value::Null },
             }));
         }
